@@ -45,6 +45,7 @@ type pipelineStateMachine struct {
 	completedCallbackFn func(err error)          // pipeline execute completed will invoke
 	mutex               sync.Mutex
 	completed           atomic.Bool
+	err                 error // first error of the failed stages
 
 	tracker *trackerpkg.StageTracker
 }
@@ -93,6 +94,10 @@ func (sm *pipelineStateMachine) executeStage(parentStageID, stageID string, stag
 // completeStage tracks stage complete execution state.
 func (sm *pipelineStateMachine) completeStage(stageID string, err error) {
 	sm.mutex.Lock()
+	if err != nil && sm.err == nil {
+		// keep the first error, the pipeline must complete with it even if other stages complete successfully later
+		sm.err = err
+	}
 	if s, ok := sm.stages[stageID]; ok {
 		var errMsg string
 		if err != nil {
@@ -115,7 +120,10 @@ func (sm *pipelineStateMachine) completeStage(stageID string, err error) {
 	sm.mutex.Unlock()
 
 	if sm.pending.Dec() == 0 {
-		// check if all stages execute completed
+		// all stages execute completed, complete pipeline with the error of failed stage if exist
+		sm.mutex.Lock()
+		err = sm.err
+		sm.mutex.Unlock()
 		sm.complete(err)
 	}
 }
